@@ -119,7 +119,8 @@ def esc_class(e):
     return 'simple'
 
 
-STR_PIECES = ['abc', 'a\\nb', '\\0x', '\\x41\\x42', '\\101\\102', '\\u00e9', '\\u20ac!', '\\U0001F600', 'é', '€uro', '😀', 'z\\\\', '\\"q\\"', '', '\\x7f', '\\377', '\\?', 'tab\\there', '\\e[0m', 'mixed é \\u00e9 \\xc3\\xa9']
+STR_PIECES = ['abc', 'a\\nb', '\\0x', '\\x41\\x42', '\\101\\102', '\\u00e9', '\\u20ac!', '\\U0001F600', 'é', '€uro', '😀', 'z\\\\', '\\"q\\"', '', '\\x7f', '\\377', '\\?', 'tab\\there', '\\e[0m', 'mixed é \\u00e9 \\xc3\\xa9',
+              '\\\\u00e9', '\\\\U0001F600', 'a\\\\u20acb', '\\\\\\u00e9', 'C:\\\\users\\\\u1234', '\\\\x41', '\\\\\\\\u0041']
 
 
 def string_cases(rng, n):
@@ -295,8 +296,9 @@ def run(ctx):
     glob, body, exp = [], [], []
     for i, (text, el, key) in enumerate(strs):
         glob.append('static const %s g%d[] = %s;' % (el, i, text))
-        body.append('OUT(%d, g%d, sizeof g%d); { const %s a[] = %s; OUT(%d, a, sizeof a); } OUTV(%d, sizeof(%s));' % (i, i, i, el, text, i, i, text))
-        exp += [(None, key + '|static', text), (None, key + '|auto', text), (None, key + '|sizeof', text)]
+        body.append('OUT(%d, g%d, sizeof g%d); { const %s a[] = %s; OUT(%d, a, sizeof a); } OUTV(%d, sizeof(%s)); OUTV(%d, sizeof((%s)[0]) * 2 + ((typeof((%s)[0]))-1 < 0));' %
+                    (i, i, i, el, text, i, i, text, i, text, text))
+        exp += [(None, key + '|static', text), (None, key + '|auto', text), (None, key + '|sizeof', text), (None, key + '|element-type', text)]
     progs.append(('#include "vrt.h"\n' + '\n'.join(glob) + '\nint main(void) {\n' + '\n'.join(body) + '\nreturn 0;\n}\n', exp))
     body, exp = [], []
     for i, (text, key) in enumerate(float_cases(rng, ctx.scale(150, 3000))):
